@@ -142,6 +142,27 @@ theorem classdef_build_is_fmt1_or_fmt2 (items : List (Nat × Nat)) :
   rw [buildClassDefItems_eq]
   by_cases h : preferFormat1 items = true <;> simp [h]
 
+/-! ## `ClassDefBuilder` (glyph sets → class ids) -/
+
+/-- **classdef_builder_get.**  `ClassDefBuilder::build_with_mapping` on pairwise disjoint classes
+(the invariant `checked_add` maintains, see `classdef_builder_add_keeps_disjoint`): every glyph of
+a class reads back as the id the mapping gives that class, every other glyph as class 0, every
+class has an id, and the ids are `0..n` (with `new_using_class_0`) resp. `1..=n` in the order of the
+sorted classes — these ids index the PairPos format 2 matrix. -/
+theorem classdef_builder_get (b : ClassDefBuilder) (hdis : b.classes.Pairwise ClassesDisjoint) :
+    (∀ p ∈ b.buildWithMapping.2, ∀ g ∈ p.1, b.buildWithMapping.1.get g = p.2) ∧
+    (∀ g, (∀ c ∈ b.classes, g ∉ c) → b.buildWithMapping.1.get g = 0) ∧
+    (b.buildWithMapping.2.map (·.1)).Perm b.classes ∧
+    b.buildWithMapping.2.map (·.2) =
+      List.range' (if b.useClass0 then 0 else 1) b.classes.length :=
+  buildWithMapping_get b hdis
+
+/-- `checked_add` (accepting or rejecting) keeps the accepted classes pairwise disjoint -/
+theorem classdef_builder_add_keeps_disjoint (b : ClassDefBuilder) (cls : List Nat)
+    (hdis : b.classes.Pairwise ClassesDisjoint) :
+    (b.checkedAdd cls).1.classes.Pairwise ClassesDisjoint :=
+  checkedAdd_disjoint b cls hdis
+
 /-! ## `split_coverage` -/
 
 /-- **split_coverage_spec.**  For a well-formed coverage table in EITHER format and any
@@ -290,6 +311,41 @@ theorem ppf2_split_preserves {V : Type} (t : PairPos2 V) (hwf : t.cov.WF) (pts :
   unfold firstMatch2
   rw [c', hl, PairPos2.lookupIn_full]
 
+/-- **ppf2_points_valid.**  The split points the size heuristic of `split_pair_pos_format_2`
+computes (any coverage / class assignment / record and class-definition sizes) are strictly
+increasing, never exceed the class-1 count, and end with the class-1 count. -/
+theorem ppf2_points_valid (gc : List (Nat × Nat)) (class1Count recSize cd2Size : Nat)
+    (pts : List Nat) (h : ppf2SplitPoints gc class1Count recSize cd2Size = some pts) :
+    pts.Pairwise (· < ·) ∧ pts.getLast? = some class1Count ∧ ∀ p ∈ pts, p ≤ class1Count := by
+  unfold ppf2SplitPoints at h
+  have inv := ppf2_fold_inv ⟨gc⟩ recSize cd2Size class1Count
+  simp only at h inv
+  generalize (List.range class1Count).foldl (ppf2Step ⟨gc⟩ recSize cd2Size) ⟨16, 4, 4, []⟩ = st at h inv
+  split at h
+  · cases h
+  · cases h
+    refine ⟨?_, by simp, ?_⟩
+    · rw [List.pairwise_append]
+      refine ⟨List.pairwise_reverse.mpr (inv.1.imp (fun h => h)), by simp, ?_⟩
+      intro a ha b hb
+      simp at hb; subst hb
+      exact inv.2 a (List.mem_reverse.mp ha)
+    · intro p hp
+      rcases List.mem_append.mp hp with hp | hp
+      · exact Nat.le_of_lt (inv.2 p (List.mem_reverse.mp hp))
+      · simp at hp; omega
+
+/-- **ppf2_split_heuristic_preserves.**  With the split points the real heuristic computes, splitting
+a PairPos format 2 subtable whose matrix has one row per class-1 value preserves every pair
+lookup. -/
+theorem ppf2_split_heuristic_preserves {V : Type} (t : PairPos2 V) (hwf : t.cov.WF)
+    (gc : List (Nat × Nat)) (recSize cd2Size : Nat) (pts : List Nat)
+    (h : ppf2SplitPoints gc t.rows.length recSize cd2Size = some pts) :
+    ∃ ts, splitPpf2Go t 0 pts = some ts ∧ ∀ g1 g2, firstMatch2 ts g1 g2 = t.lookup g1 g2 := by
+  have ⟨pw, hl, _⟩ := ppf2_points_valid gc _ recSize cd2Size pts h
+  obtain ⟨ts, a, _, c⟩ := ppf2_split_preserves t hwf pts (pw.imp (fun h => Nat.le_of_lt h)) hl
+  exact ⟨ts, a, c⟩
+
 /-! ## MarkBasePos splitting -/
 
 /-- **markbase_split_preserves.**  Take ANY MarkBasePos subtable with a well-formed mark coverage
@@ -363,6 +419,11 @@ example : (splitMarkBaseGo exMarkBase 0 [1, 2]).map (fun ts => firstMatchMB ts 2
     some (some (221, 61)) := by decide +kernel
 example : (splitMarkBaseGo exMarkBase 0 [1, 2]).map (fun ts => firstMatchMB ts 21 6) =
     some none := by decide +kernel
+/-- a builder run: two classes, the larger one gets the smaller id -/
+example : (((⟨[], false⟩ : ClassDefBuilder).checkedAdd [7]).1.checkedAdd [3, 4]).1.buildWithMapping =
+    (.fmt2 [⟨3, 4, 1⟩, ⟨7, 7, 2⟩], [([3, 4], 1), ([7], 2)]) := by decide
+/-- the format 2 heuristic does produce split points: 3 classes with 30000-byte rows -/
+example : ppf2SplitPoints [(1, 0), (2, 1), (3, 1), (4, 2)] 3 30000 10 = some [2, 3] := by decide
 /-- a PairPos format 2 split: glyphs 1..4 with classes 0,1,1,2; rows split at class 1 -/
 example :
     let t : PairPos2 Nat := ⟨.fmt1 [1, 2, 3, 4], .fmt2 [⟨2, 3, 1⟩, ⟨4, 4, 2⟩], .fmt2 [⟨7, 7, 1⟩],
